@@ -2,6 +2,7 @@
 //! Every subcommand reads/writes NDJSON or a JSON report; see /verif/DESIGN.md §3.
 mod lex;
 mod util;
+mod wrap;
 
 fn arg(args: &[String], name: &str, default: &str) -> String {
     args.iter()
@@ -18,6 +19,7 @@ fn main() {
     let n: usize = arg(&args, "--n", "1000").parse().unwrap();
     let input = arg(&args, "--in", "");
     let out = arg(&args, "--out", "");
+    let div = arg(&args, "--div", "/dev/null");
     match sub {
         "c13-replay" => lex::c13_replay(&input, &out),
         "c13-record" => lex::c13_record(
@@ -30,6 +32,8 @@ fn main() {
         "c14-cursor-replay" => lex::c14_cursor_replay(&input, &out),
         "c14-helpers-replay" => lex::c14_helpers_replay(&input, &out),
         "c14-record" => lex::c14_record(seed, n, arg(&args, "--maxops", "20").parse().unwrap(), &out),
+        "c20-replay" => wrap::c20_replay(&input, &out, &div),
+        "c20-record" => wrap::c20_record(seed, n, arg(&args, "--maxlen", "120").parse().unwrap(), &out),
         _ => {
             eprintln!("usage: vh <subcommand> [--in f] [--out f] [--seed n] [--n n]");
             std::process::exit(2);
